@@ -8,6 +8,7 @@ head, fixed = [], []
 for l in open(path):
     if l.startswith("#"): head.append(l)
     elif l.startswith("fixed:"): fixed.append(l)
+    elif l.startswith("known:") and " class=" in l: fixed.append(l)  # hand-written attribution lines (corpus inputs) are kept
 known = []
 for f in sorted(glob.glob(os.path.join(root, "findings", "*.wgsl"))):
     lines = open(f).read().split("\n")
